@@ -267,7 +267,10 @@ func (f *fileDecorator) link() {
 				end = start + 1
 			}
 
-			if end != start+1 {
+			if end <= start {
+				// (the node ends on the line it starts on, or on a line that is not indented
+				// deeper: nothing can hang below it. A node that ends on a continuation line,
+				// however deep, can be followed by comments at its own indent.)
 				continue
 			}
 
